@@ -28,7 +28,8 @@ SetOf(a) == {a[i] : i \in DOMAIN a}
 
 \* the scenario of a Reset line; in a recorded execution every pipe and sink
 \* may be released (canrel only bounds the exhaustive runs)
-CfgOf(c) ==
+CfgOf(c0) ==
+  LET c == IF "oneshot" \in DOMAIN c0 THEN [c0 EXCEPT !.oneshot = SetOf(@)] ELSE c0 IN
   [c EXCEPT !.entry = SetOf(@),
             !.icpt = [n \in DOMAIN @ |-> SetOf(@[n])],
             !.prov = [n \in DOMAIN @ |-> SetOf(@[n])],
